@@ -17,6 +17,11 @@ RULE = ("random graphs with 1-6 disconnected parts and deterministic bodies; for
         "yield/sleep at random, and the same specification rebuilt and run in child interpreters under a sweep of "
         "PYTHONHASHSEED; get_subgraphs is checked to be a partition closed under edges; a share of the graphs runs "
         "datasources with a HostContext in the shared broker (what real collection dispatches to the pool); "
+        "three single passes with dr.get_dependents returning sets that iterate in a shuffled order; a share of the graphs has "
+        "the broker of a loaded archive (SerializedArchiveContext + pre-loaded values, compared across run / run_incremental / "
+        "run_all), hubs with several failing consumers, failing datasources that back several specs; pool runs use a 1 us "
+        "switch interval and a yield inside Broker.__iter__/keys/items/values; plus real spec factories collected and "
+        "persisted serially vs on pools, and the repository's own graph serial vs incremental vs pool; "
         "non-trivial = >= 2 parts with >= 2 nodes each or >= 4 nodes with an edge; distinct by hash of the spec")
 ASSUMPTIONS = [
     "component bodies are deterministic functions of their arguments (the statement's premise)",
